@@ -56,8 +56,9 @@ func (w *faultyWriter) Write(p []byte) (int, error) {
 }
 
 type c18font struct {
-	name string
-	f    *sfnt.Font
+	name   string
+	f      *sfnt.Font
+	sparse bool // large file explored at buffer-size boundaries only (quick tier)
 }
 
 type writerAPI struct {
@@ -98,7 +99,21 @@ func c18corpus(c *mon.Ctx) []c18font {
 			}
 			go_.Tables["gasp"] = []byte{0, 1, 0, 2, 0, 8, 0, 2, 0xff, 0xff, 0, 3}
 		}
-		fonts = append(fonts, c18font{fmt.Sprintf("generated-%d-%s", i, o.Kind), f})
+		fonts = append(fonts, c18font{fmt.Sprintf("generated-%d-%s", i, o.Kind), f, false})
+	}
+	if !c.Thorough() {
+		// tables beyond 64 KiB in the quick tier as well: one large font per
+		// outline kind, explored at buffer-size boundaries
+		for i, o := range []fontgen.Opts{
+			{Kind: "glyf", MinGlyphs: 1500, MaxGlyphs: 1500, CMap: "4", Plain: true, NoComposite: true},
+			{Kind: "cff", MinGlyphs: 1500, MaxGlyphs: 1500, CMap: "4", Plain: true},
+		} {
+			f, _ := fontgen.Font(c.Rand("corpus-large", i), o)
+			if f.CreationTime.IsZero() && f.ModificationTime.IsZero() {
+				f.ModificationTime = f.ModificationTime.AddDate(2001, 0, 0)
+			}
+			fonts = append(fonts, c18font{fmt.Sprintf("generated-large-%d-%s", i, o.Kind), f, true})
+		}
 	}
 	for _, cf := range corpusFiles(c) {
 		small := len(cf.data) < 20000
@@ -109,13 +124,13 @@ func c18corpus(c *mon.Ctx) []c18font {
 		if err != nil {
 			continue
 		}
-		fonts = append(fonts, c18font{cf.name, f})
+		fonts = append(fonts, c18font{cf.name, f, false})
 	}
 	return fonts
 }
 
 // faultPoints lists the k values explored for an output of length L.
-func faultPoints(out []byte, exhaustiveBelow int) []int {
+func faultPoints(out []byte, exhaustiveBelow int, sparse bool) []int {
 	L := len(out)
 	if L <= exhaustiveBelow {
 		ks := make([]int, L+3)
@@ -125,6 +140,45 @@ func faultPoints(out []byte, exhaustiveBelow int) []int {
 		return ks
 	}
 	set := map[int]bool{}
+	if sparse {
+		// a large file in the quick tier: offsets around the multiples of
+		// 4 KiB counted from the start of the file and from the start of
+		// every table (where buffered or chunked writers switch), a coarse
+		// stride, and (below) the table boundaries
+		mark := func(b int) {
+			for d := -2; d <= 2; d++ {
+				if k := b + d; k >= 0 && k <= L+2 {
+					set[k] = true
+				}
+			}
+		}
+		for k := 0; k <= L+2; k += 4096 {
+			mark(k)
+		}
+		for k := 0; k <= L+2; k += 997 {
+			set[k] = true
+		}
+		if wf, _ := sfntwalk.Walk(out); wf != nil {
+			for _, t := range wf.Tables {
+				for off := 0; off <= int(t.Length); off += 4096 {
+					mark(int(t.Offset) + off)
+				}
+				for d := -8; d <= 8; d++ {
+					for _, b := range []int{int(t.Offset), int(t.Offset + t.Length)} {
+						if k := b + d; k >= 0 && k <= L+2 {
+							set[k] = true
+						}
+					}
+				}
+			}
+		}
+		var ks []int
+		for k := range set {
+			ks = append(ks, k)
+		}
+		sort.Ints(ks)
+		return ks
+	}
 	for k := 0; k <= L+2; k += 7 {
 		set[k] = true
 	}
@@ -260,7 +314,7 @@ func runC18(c *mon.Ctx) {
 				continue
 			}
 			ref := buf.Bytes()
-			ks := faultPoints(ref, 24000)
+			ks := faultPoints(ref, 24000, cf.sparse)
 			for v := 0; v < 2; v++ {
 				for i := 0; i < len(ks); i += block {
 					units = append(units, unit{fi, ai, v, ks[i:min(i+block, len(ks))], ref})
@@ -273,7 +327,7 @@ func runC18(c *mon.Ctx) {
 			continue
 		}
 		ref := buf.Bytes()
-		ks := faultPoints(ref, 24000)
+		ks := faultPoints(ref, 24000, cf.sparse)
 		for v := 0; v < 4; v++ {
 			for i := 0; i < len(ks); i += block {
 				units = append(units, unit{fi, -1, v, ks[i:min(i+block, len(ks))], ref})
